@@ -365,7 +365,7 @@ func genOp(rnd *rand.Rand, m *model) opSpec {
 		chans := []string{"", "some-channel", "latest/edge", "channel-for-7/stable"}
 		if !m.installed[n] {
 			op := opSpec{Kind: "install", Snap: n, Rev: 1 + rnd.Intn(6), Channel: chans[rnd.Intn(3)], DevMode: rnd.Intn(6) == 0}
-			if rnd.Intn(5) == 0 {
+			if rnd.Intn(2) == 0 {
 				op.Cohort = "cohort-" + fmt.Sprint(rnd.Intn(3))
 			}
 			return op
@@ -373,8 +373,8 @@ func genOp(rnd *rand.Rand, m *model) opSpec {
 		seq, cur := m.seq[n], m.cur[n]
 		switch k := rnd.Intn(12); {
 		case k < 4 && m.active[n]:
-			op := opSpec{Kind: "refresh-new", Snap: n, Rev: m.maxRev[n] + 1 + rnd.Intn(2), Channel: chans[rnd.Intn(3)], IgnVal: rnd.Intn(6) == 0}
-			if rnd.Intn(6) == 0 {
+			op := opSpec{Kind: "refresh-new", Snap: n, Rev: m.maxRev[n] + 1 + rnd.Intn(2), Channel: chans[rnd.Intn(3)], IgnVal: rnd.Intn(3) == 0, DevMode: rnd.Intn(4) == 0}
+			if rnd.Intn(2) == 0 {
 				op.Cohort = "cohort-" + fmt.Sprint(rnd.Intn(3))
 			}
 			return op
